@@ -94,6 +94,15 @@ class GatewayMonitor:
         if kind == "rx" and len(ev) > 2:
             self.model.epoch, self.model.utc_offset = ev[2], ev[3]
         observed = self.decode_obs(obs)
+        if "sleep" in self.clauses and getattr(obs, "wire", None) is not None and self.transport == "serial":
+            # whatever reaches the wire in this step was handed to transport.send in this step (nothing is kept back
+            # inside the transport and written later, e.g. after a reconnect, when its addressee may be asleep again)
+            sent_now = collections.Counter(text for text, _ in obs.sent)
+            for text in obs.wire:
+                if sent_now[text] > 0:
+                    sent_now[text] -= 1
+                else:
+                    viols.append(self.v("stale-write", ev[0], f"{short(text)!r} was written to the connection in a step that did not emit it (kept back inside the transport from an earlier step)"))
         model_before = None
         if "sleep" in self.clauses or "ids" in self.clauses:
             asleep_before = {nid for nid, n in self.model.nodes.items() if n.asleep}
@@ -106,6 +115,19 @@ class GatewayMonitor:
             self.judge_rx(world, ev, obs, exp, observed, viols, asleep_before)
         elif kind == "rx2":
             self.judge_rx2(world, ev, obs, observed, viols)
+        elif kind == "set" and len(ev) > 5 and self.model.known(ev[1], ev[2]):
+            # controller call with keyword arguments (msg_type=req, ack=...): no reference reply is prescribed; what is
+            # judged is model-free - nothing leaves for a node that is asleep, nothing fails in the pump
+            self.stats["set_calls_with_keywords"] += 1
+            if obs.exc is not None and obs.where == "pump" and "exc" in self.clauses:
+                self.exc_violation(obs, "call set_child_value keywords (pump)", viols)
+            if "sleep" in self.clauses:
+                for (text, cause), fields in zip(obs.sent, observed):
+                    if fields is not None:
+                        self.check_sleep_invariant(fields, cause, asleep_before, viols, "call set_child_value keywords")
+            if obs.exc is None:
+                self.poisoned = True  # the call may have stored something the model does not track
+            return viols
         elif kind == "set":
             exp = self.model.set_child_value(ev[1], ev[2], ev[3], ev[4])
             self.judge_set(world, ev, obs, exp, observed, viols, asleep_before)
